@@ -549,6 +549,16 @@ fn ex_record(t: &mut Tr, r: ParsedRecord<'_, [u8]>, prev: &mut Option<u64>) {
             let cc = guarded(t, "record_canonical_cmp", || rec.canonical_cmp(&rec)).unwrap_or(std::cmp::Ordering::Equal);
             let _ = write!(t.s, " any[{} {} {} {} {} {:x} {} {:?} {:?}]", z, zt.len(), zm.len(), d.len(), g.len(), h, eq, c, cc);
             *prev = Some(h);
+            let sub = guarded(t, "rdata_sub", || match rec.data() {
+                AllRecordData::Nsec(n) => format!("nsec {} {} {}", n.types().iter().count(), n.types().contains(Rtype::A), n.types().iter().map(|x| x.to_int() as u32).sum::<u32>()),
+                AllRecordData::Nsec3(n) => format!("nsec3 {} {} {} {}", n.types().iter().count(), n.salt(), n.next_owner(), n.types().contains(Rtype::NS)),
+                AllRecordData::Svcb(x) => format!("svcb {} {} {}", x.params().iter_all().map(|v| match v { Ok(v) => format!("{}", v), Err(e) => format!("E{}", e) }).collect::<Vec<_>>().join(" "), x.params().iter_raw().count(), x.params()),
+                AllRecordData::Https(x) => format!("https {} {} {}", x.params().iter_all().map(|v| match v { Ok(v) => format!("{}", v), Err(e) => format!("E{}", e) }).collect::<Vec<_>>().join(" "), x.params().iter_raw().count(), x.params()),
+                AllRecordData::Txt(x) => format!("txt {} {} {}", x.iter().count(), x.iter_charstrs().map(|c| c.len()).sum::<usize>(), x.len()),
+                AllRecordData::Ipseckey(x) => format!("ipseckey {} {:?}", x.gateway(), x.gateway()),
+                _ => String::new(),
+            }).unwrap_or_default();
+            let _ = write!(t.s, " sub[{}]", sub);
         }
         Err(e) => { let _ = write!(t.s, " anyE[{}]", e); }
     }
@@ -663,15 +673,48 @@ fn read_all(bytes: &[u8], query: &[u8]) -> (String, Vec<(String, String)>, Vec<u
     match msg.opt() {
         Some(o) => {
             let _ = write!(t.s, "{} {} {} {} {:?}", o.udp_payload_size(), o.version(), o.dnssec_ok(), o.rcode(h), o);
-            let mut k = 0;
-            for opt in o.opt().iter::<AllOptData<_, _>>() {
+            let opts: Vec<_> = { let mut v = vec![]; for x in o.opt().iter::<AllOptData<_, _>>() { v.push(x); if v.len() > 70_000 { t.bad.push(("hang".to_string(), "option iterator yields more than 65535 items".into())); break; } } v };
+            for opt in opts.iter() {
                 match opt {
-                    Ok(AllOptData::Other(x)) => { let _ = write!(t.s, " other[{} {}]", x.code(), x); t.within(x.as_slice(), "option data"); }
-                    Ok(x) => { let _ = write!(t.s, " opt[{:?}]", x); }
                     Err(e) => { let _ = write!(t.s, " optE[{}]", e); }
+                    Ok(x) => {
+                        use AllOptData::*;
+                        let (ph, txt): (&'static str, Option<String>) = match x {
+                            Nsid(v) => ("opt_nsid", guarded(&mut t, "opt_nsid", || format!("{} {:?} {}", v, v, v.as_slice().len()))),
+                            Dau(v) => ("opt_dau", guarded(&mut t, "opt_dau", || format!("{} {:?} {}", v, v, v.iter().count()))),
+                            Dhu(v) => ("opt_dhu", guarded(&mut t, "opt_dhu", || format!("{} {:?} {}", v, v, v.iter().count()))),
+                            N3u(v) => ("opt_n3u", guarded(&mut t, "opt_n3u", || format!("{} {:?} {}", v, v, v.iter().count()))),
+                            Expire(v) => ("opt_expire", guarded(&mut t, "opt_expire", || format!("{} {:?}", v, v))),
+                            TcpKeepalive(v) => ("opt_keepalive", guarded(&mut t, "opt_keepalive", || format!("{} {:?}", v, v))),
+                            Padding(v) => ("opt_padding", guarded(&mut t, "opt_padding", || format!("{} {:?}", v, v))),
+                            ClientSubnet(v) => ("opt_subnet", guarded(&mut t, "opt_subnet", || format!("{} {:?} {} {} {}", v, v, v.source_prefix_len(), v.scope_prefix_len(), v.addr()))),
+                            Cookie(v) => ("opt_cookie", guarded(&mut t, "opt_cookie", || format!("{} {:?}", v, v))),
+                            Chain(v) => ("opt_chain", guarded(&mut t, "opt_chain", || format!("{} {:?}", v, v))),
+                            KeyTag(v) => ("opt_keytag", guarded(&mut t, "opt_keytag", || format!("{} {:?} {}", v, v, v.iter().count()))),
+                            ExtendedError(v) => ("opt_exterr", guarded(&mut t, "opt_exterr", || format!("{} {:?} {} {:?}", v, v, v.code(), v.text().map(|x| x.is_ok())))),
+                            Other(v) => { t.within(v.as_slice(), "option data"); ("opt_other", guarded(&mut t, "opt_other", || format!("{} {} {:?}", v.code(), v, v))) }
+                            _ => ("opt_unknown_variant", None),
+                        };
+                        let _ = write!(t.s, " {}[{}]", ph, txt.unwrap_or_default());
+                    }
                 }
-                k += 1; if k > 70_000 { t.bad.push(("hang".to_string(), "option iterator yields more than 65535 items".into())); break; }
             }
+            phase("opt");
+            // the typed accessors
+            {
+                let od = o.opt();
+                let a = guarded(&mut t, "opt_nsid", || format!("{:?}", od.nsid()));
+                let b = guarded(&mut t, "opt_dau", || format!("{:?} {:?} {:?}", od.dau(), od.dhu(), od.n3u()));
+                let c = guarded(&mut t, "opt_expire", || format!("{:?}", od.expire()));
+                let d = guarded(&mut t, "opt_keepalive", || format!("{:?}", od.tcp_keepalive()));
+                let e = guarded(&mut t, "opt_subnet", || format!("{:?}", od.client_subnet()));
+                let f = guarded(&mut t, "opt_cookie", || format!("{:?}", od.cookie()));
+                let g = guarded(&mut t, "opt_chain", || format!("{:?}", od.chain()));
+                let h = guarded(&mut t, "opt_keytag", || format!("{:?}", od.key_tag()));
+                let i = guarded(&mut t, "opt_exterr", || format!("{:?}", od.extended_error()));
+                let _ = write!(t.s, " acc[{:?} {:?} {:?} {:?} {:?} {:?} {:?} {:?} {:?}]", a, b, c, d, e, f, g, h, i);
+            }
+            phase("opt");
             let _ = write!(t.s, " {} {:x}", o.opt(), hash_of(o.opt()));
         }
         None => t.s.push_str("none"),
@@ -933,6 +976,7 @@ fn built_message(r: &mut Rng) -> Vec<u8> {
             let nopts = r.below(4);
             let mut optdata: Vec<(u16, Vec<u8>)> = vec![];
             for _ in 0..nopts {
+                if r.chance(1, 2) { optdata.push(structured_option(r)); continue; }
                 let code = r.range(1, 20) as u16;
                 let d: Vec<u8> = match (code, r.below(3)) {
                     (_, 0) => { let n = r.below(26) as usize; r.bytes(n) }
@@ -964,6 +1008,183 @@ fn built_message(r: &mut Rng) -> Vec<u8> {
         1 => fill(r, StaticCompressor::new(Vec::new())),
         _ => fill(r, TreeCompressor::new(Vec::new())),
     }
+}
+
+
+// ------------------------------------------------------------------ structure-aware OPT options / RDATA
+
+/// One EDNS option with octets at / around the structural boundaries of its code.
+fn structured_option(r: &mut Rng) -> (u16, Vec<u8>) {
+    let code = *r.pick(&[3u16, 5, 6, 7, 8, 8, 8, 9, 10, 10, 11, 12, 13, 14, 15, 15, 16, 65001]);
+    let d: Vec<u8> = match code {
+        8 => {
+            let fam = *r.pick(&[1u16, 1, 2, 2, 0, 3]);
+            let maxp: u64 = if fam == 2 { 136 } else if r.chance(1, 2) { 40 } else { 136 };
+            let prefix = r.below(maxp + 1) as u8;
+            let scope = if r.chance(1, 2) { 0 } else { r.below(137) as u8 };
+            let need = (prefix as usize + 7) / 8;
+            let alen = match r.below(6) { 0 => need.saturating_sub(1), 1 => need + 1, 2 => 0, _ => need };
+            let mut a = r.bytes(alen);
+            if r.chance(1, 2) && alen == need && prefix % 8 != 0 && alen > 0 { let m = 0xFFu8 << (8 - prefix % 8); a[alen - 1] &= m; }
+            let mut d = fam.to_be_bytes().to_vec(); d.push(prefix); d.push(scope); d.extend(a);
+            if r.chance(1, 12) { d.truncate(r.below(4) as usize); }
+            d
+        }
+        10 => { let n = r.range(0, 42) as usize; r.bytes(n) }
+        11 => { let n = r.below(4) as usize; r.bytes(n) }
+        9 => { let n = *r.pick(&[0usize, 3, 4, 5]); r.bytes(n) }
+        14 => { let n = r.below(8) as usize; r.bytes(n) }
+        5 | 6 | 7 => { let n = r.below(6) as usize; r.bytes(n) }
+        12 => { let n = r.below(24) as usize; if r.chance(1, 2) { vec![0; n] } else { r.bytes(n) } }
+        13 => match r.below(6) {
+            0 => vec![0x40, 1, 0],
+            1 => vec![3, b'a', b'b'],
+            2 => vec![0xC0, 0],
+            3 => { let mut v = vec![]; for _ in 0..5 { v.push(63); v.extend(std::iter::repeat(b'x').take(63)); } v.push(0); v }
+            4 => vec![],
+            _ => { let mut v = rand_name_wire(r, &[]); if r.chance(1, 3) { v.push(0); } v }
+        },
+        15 => match r.below(6) {
+            0 => vec![],
+            1 => vec![0],
+            2 => (r.below(30) as u16).to_be_bytes().to_vec(),
+            3 => { let mut d = (r.below(30) as u16).to_be_bytes().to_vec(); d.extend(b"some text"); d }
+            4 => { let mut d = (r.u16()).to_be_bytes().to_vec(); d.extend(&[0xFF, 0xFE, b'a', 0xC3]); d }
+            _ => { let mut d = (r.below(30) as u16).to_be_bytes().to_vec(); d.extend(b"nul\0inside"); d }
+        },
+        _ => { let n = r.below(12) as usize; r.bytes(n) }
+    };
+    (code, d)
+}
+
+fn put_rr(m: &mut Vec<u8>, owner: &[u8], ty: u16, class: u16, ttl: u32, rdata: &[u8], rdlen_delta: i32) {
+    m.extend(owner); m.extend(&ty.to_be_bytes()); m.extend(&class.to_be_bytes()); m.extend(&ttl.to_be_bytes());
+    m.extend(&((rdata.len() as i32 + rdlen_delta).max(0) as u16).to_be_bytes()); m.extend(rdata);
+}
+
+/// Header + question + an OPT record made of structured options (the framing is occasionally broken too).
+fn opt_focus_message(r: &mut Rng) -> Vec<u8> {
+    let mut m = vec![r.u8(), r.u8(), 0x81, 0x80, 0, 1, 0, 0, 0, 0, 0, 1];
+    m.extend(b"\x01a\x00\x00\x01\x00\x01");
+    let mut rd = vec![];
+    for _ in 0..r.range(1, 3) {
+        let (code, d) = structured_option(r);
+        rd.extend(&code.to_be_bytes());
+        let l = if r.chance(1, 25) { d.len() as u16 + 1 } else { d.len() as u16 };
+        rd.extend(&l.to_be_bytes()); rd.extend(d);
+    }
+    let delta = if r.chance(1, 30) { -1 } else { 0 };
+    put_rr(&mut m, &[0], 41, if r.chance(1, 2) { 1232 } else { r.u16() }, r.u32() & 0xFF01_8000, &rd, delta);
+    m
+}
+
+fn bitmap_variant(r: &mut Rng) -> Vec<u8> {
+    match r.below(12) {
+        0 => vec![],
+        1 => vec![0, 0],                                    // empty window
+        2 => { let mut v = vec![0, 33]; v.extend(r.bytes(33)); v }
+        3 => { let mut v = vec![0, 32]; v.extend(r.bytes(32)); v }
+        4 => vec![1, 1, 0x40, 0, 1, 0x40],                  // descending windows
+        5 => vec![0, 1, 0x40, 0, 1, 0x20],                  // duplicate window
+        6 => vec![0, 4, 0x40, 1],                           // truncated window
+        7 => vec![0, 2, 0x40, 0],                           // trailing zero octet
+        8 => vec![0],                                       // lone window number
+        9 => { let mut v = vec![]; for w in [0u8, 1, 255] { v.push(w); v.push(1); v.push(r.u8() | 1); } v }
+        10 => vec![0, 1, 0],                                // all-zero bitmap
+        _ => vec![0, 6, 0x62, 0x01, 0x80, 0x08, 0x00, 0x03],
+    }
+}
+
+/// RDATA at / around the structural boundaries of a record type.
+fn boundary_rdata(r: &mut Rng, ty: u16) -> Vec<u8> {
+    let nm = |r: &mut Rng| rand_name_wire(r, &[]);
+    let mut v: Vec<u8> = match ty {
+        47 => { let mut v = nm(r); v.extend(bitmap_variant(r)); v }
+        50 => {
+            let mut v = vec![1, r.below(2) as u8, 0, r.below(20) as u8];
+            let sl = *r.pick(&[0usize, 4, 8, 255]); v.push(sl as u8); let take = if r.chance(1, 8) { sl / 2 } else { sl }; v.extend(r.bytes(take));
+            let hl = *r.pick(&[0usize, 20, 32, 255]); v.push(hl as u8); let take = if r.chance(1, 8) { hl / 2 } else { hl }; v.extend(r.bytes(take));
+            v.extend(bitmap_variant(r)); v
+        }
+        64 | 65 => {
+            let mut v = r.bytes(2); if r.chance(1, 4) { v[0] = 0; v[1] = 0; }
+            v.extend(if r.chance(1, 5) { vec![0xC0, 12] } else { nm(r) });
+            let mut keys: Vec<u16> = (0..r.below(5)).map(|_| *r.pick(&[0u16, 1, 2, 3, 4, 5, 6, 7, 8, 9, 10, 65280, 65535])).collect();
+            if r.chance(2, 3) { keys.sort(); if r.chance(2, 3) { keys.dedup(); } }
+            for k in keys {
+                let val: Vec<u8> = match (k, r.below(4)) {
+                    (0, 0) => vec![0, 1, 0, 3], (0, 1) => vec![0, 3, 0, 1], (0, 2) => vec![0, 1, 0], (0, _) => vec![0, 0],
+                    (1, 0) => vec![0], (1, 1) => vec![5, b'h', b'2'], (1, 2) => vec![2, b'h', b'2', 0], (1, _) => vec![2, b'h', b'2', 2, b'h', b'3'],
+                    (2, 0) => vec![], (2, _) => vec![1],
+                    (3, 0) => vec![1], (3, 1) => vec![1, 2, 3], (3, _) => vec![1, 187],
+                    (4, 0) => vec![], (4, 1) => vec![1, 2, 3], (4, 2) => vec![1, 2, 3, 4, 5], (4, _) => vec![1, 2, 3, 4],
+                    (6, 0) => r.bytes(15), (6, 1) => r.bytes(17), (6, 2) => vec![], (6, _) => r.bytes(16),
+                    (5, 0) => vec![], (7, 0) => vec![0xFF, 0xFE], (7, _) => b"/dns-query{?dns}".to_vec(),
+                    (9, 0) => vec![0], (9, _) => vec![0, 29, 0, 23],
+                    _ => { let n = r.below(6) as usize; r.bytes(n) }
+                };
+                v.extend(&k.to_be_bytes());
+                let l = if r.chance(1, 15) { val.len() as u16 + 1 } else { val.len() as u16 };
+                v.extend(&l.to_be_bytes()); v.extend(val);
+            }
+            if r.chance(1, 10) { let n = r.range(1, 3) as usize; v.extend(r.bytes(n)); }
+            v
+        }
+        45 => {
+            let gt = r.below(5) as u8; let alg = r.below(4) as u8;
+            let mut v = vec![r.u8(), gt, alg];
+            let g: Vec<u8> = match gt { 1 => r.bytes(4), 2 => r.bytes(16), 3 => nm(r), _ => vec![] };
+            let take = if r.chance(1, 4) { r.below(g.len() as u64 + 1) as usize } else { g.len() };
+            v.extend(&g[..take]);
+            if r.chance(1, 2) { let n = r.below(6) as usize; v.extend(r.bytes(n)); }
+            v
+        }
+        16 => match r.below(5) {
+            0 => vec![],
+            1 => vec![0],
+            2 => vec![5, b'a', b'b'],
+            3 => { let mut v = vec![255]; v.extend(r.bytes(254)); v }
+            _ => vec![1, b'a', 0, 3, b'x', b'y'],
+        },
+        257 => match r.below(5) {
+            0 => vec![0, 0],
+            1 => vec![0, 0, b'v'],
+            2 => vec![0, 5, b'i', b's'],
+            3 => vec![128, 3, b'a', b'-', b'b', b'v'],
+            _ => vec![0],
+        },
+        35 => { let mut v = r.bytes(4); for _ in 0..3 { let n = r.below(4) as u8; v.push(if r.chance(1, 6) { n + 9 } else { n }); v.extend(r.bytes(n as usize)); } v.extend(nm(r)); v }
+        250 => {
+            let mut v = nm(r); v.extend(r.bytes(8));
+            let ml = r.below(6) as u16; v.extend(&(if r.chance(1, 5) { ml + 7 } else { ml }).to_be_bytes()); v.extend(r.bytes(ml as usize));
+            v.extend(r.bytes(4));
+            let ol = *r.pick(&[0u16, 6, 2]); v.extend(&(if r.chance(1, 5) { ol + 3 } else { ol }).to_be_bytes()); v.extend(r.bytes(ol as usize));
+            v
+        }
+        _ => raw_rdata(r, ty, &[]),
+    };
+    match r.below(8) {
+        0 => { let n = r.below(v.len() as u64 + 1) as usize; v.truncate(n); }
+        1 => { v.push(r.u8()); }
+        2 => { if !v.is_empty() { let i = r.below(v.len() as u64) as usize; v[i] = *r.pick(&[0u8, 1, 255, 63, 64, 0xC0]); } }
+        _ => {}
+    }
+    v
+}
+
+/// Header + question + one or two records of one type with boundary RDATA.
+fn rdata_focus_message(r: &mut Rng) -> Vec<u8> {
+    let mut m = vec![r.u8(), r.u8(), 0x81, 0x80, 0, 1, 0, 0, 0, 0, 0, 0];
+    m.extend(b"\x03foo\x07example\x00\x00\xff\x00\x01");
+    let ty = if r.chance(3, 5) { *r.pick(&[47u16, 47, 50, 50, 64, 65, 64, 45, 45, 16, 257, 35, 250]) } else { *r.pick(KNOWN_TYPES) };
+    let n = r.range(1, 2);
+    for _ in 0..n {
+        let rd = boundary_rdata(r, ty);
+        let delta = match r.below(20) { 0 => -1, 1 => 1, _ => 0 };
+        put_rr(&mut m, &[0xC0, 12], ty, 1, 300, &rd, delta);
+    }
+    m[7] = n as u8;
+    m
 }
 
 /// Lenient structure scan: offsets of interesting fields.
@@ -1357,6 +1578,8 @@ fn real_main() {
         run_msg(&mut out, &mut r, &m, "built", &mut idx, true);
         for _ in 0..5 { let mm = mutate(&mut r, &m); run_msg(&mut out, &mut r, &mm, "mutated", &mut idx, i % 3 == 0); }
     }
+    for i in 0..2500 * scale { let m = opt_focus_message(&mut r); run_msg(&mut out, &mut r, &m, "optfocus", &mut idx, i % 8 == 0); }
+    for i in 0..4000 * scale { let m = rdata_focus_message(&mut r); run_msg(&mut out, &mut r, &m, "rdatafocus", &mut idx, i % 8 == 0); }
     for _ in 0..300 * scale { let m = long_via_pointer(&mut r); run_msg(&mut out, &mut r, &m, "longptr", &mut idx, true); }
     for i in 0..4000 * scale { let m = raw_random(&mut r); run_msg(&mut out, &mut r, &m, "random", &mut idx, i % 3 == 0); }
     for _ in 0..600 * scale {
